@@ -49,9 +49,10 @@ VARIABLES
   returned,   \* idents handed back to the caller by remove / remove_by_id
   nextIdent,  \* next fresh ident (idents are 1..nextIdent-1)
   call,       \* the call made by the last step
-  outcome     \* its outcome
+  outcome,    \* its outcome
+  iters       \* live meta-table iterator id -> [mode, tys, idx]  (an iterator holds NO borrow)
 
-wvars == <<store, borrow, guards, dropped, returned, nextIdent, call, outcome>>
+wvars == <<store, borrow, guards, dropped, returned, nextIdent, call, outcome, iters>>
 
 Ids    == Types \X Dyns
 NoVal  == [type |-> 0, payload |-> 0, ident |-> 0]
@@ -87,7 +88,7 @@ FetchRes(st, br, targ, id, mode, style) ==
   ELSE IF ~Compat(br[id], mode) THEN Panic("borrow")
   ELSE Out("guard", "", <<st[id]>>)
 
-MutOK == DOMAIN guards = {}      \* D1
+MutOK == DOMAIN guards = {} /\ DOMAIN iters = {}      \* D1 (an iterator borrows `&World` as well)
 
 Init ==
   /\ store = [id \in Ids |-> Absent]
@@ -96,6 +97,7 @@ Init ==
   /\ dropped = {} /\ returned = {} /\ nextIdent = 1
   /\ call = C("init", 0, <<0, 0>>, 0, <<>>, <<>>)
   /\ outcome = Unit
+  /\ iters = <<>>
 
 \* ---- &mut self: the map -----------------------------------------------------
 \* insert (op "insert": targ = id type, dy = 0) and insert_by_id
@@ -314,6 +316,50 @@ MetaIter(tys, mode, gs) ==
      THEN outcome' = Panic(a.why) /\ UNCHANGED <<borrow, guards>>
      ELSE outcome' = Out("guards", "", a.vs) /\ borrow' = a.br /\ guards' = GrantAll(a.got, gs)
   /\ UNCHANGED <<store, dropped, returned, nextIdent>>
+
+\* ---- step-wise meta-table iteration ----------------------------------------------
+\* MetaTable::iter / iter_mut only CREATE an iterator (no borrow); each next() takes the next
+\* registered type whose (t, 0) is present at that moment and borrows exactly that cell
+\* (AtomicRefCell::borrow / borrow_mut: a conflict panics right there, AFTER the position has
+\* advanced, so a later next() goes on with the following types); absent resources are skipped;
+\* the item is a guard that lives as long as the caller keeps it, independent of the iterator.
+\* (The actions above leave `iters` alone: MCWorld / WorldTrace conjoin UNCHANGED iters.)
+IterKeep == UNCHANGED <<store, dropped, returned, nextIdent>>
+MIterNew(it, tys, mode) ==
+  /\ it \notin DOMAIN iters
+  /\ call' = C(IF mode = "r" THEN "miter_new" ELSE "miter_new_mut", 0, <<0, 0>>, 0, <<it>>, MetaShape(tys, mode))
+  /\ outcome' = Unit
+  /\ iters' = Put(iters, it, [mode |-> mode, tys |-> tys, idx |-> 0])
+  /\ IterKeep /\ UNCHANGED <<borrow, guards>>
+
+\* position of the next registered type after idx whose resource is present (0: none)
+NextPresent(tys, idx) ==
+  LET S == {j \in DOMAIN tys : j > idx /\ store[<<tys[j], 0>>] # Absent} IN
+  IF S = {} THEN 0 ELSE CHOOSE j \in S : \A k \in S : j <= k
+
+MIterNext(it, gs) ==
+  /\ it \in DOMAIN iters
+  /\ LET i  == iters[it]
+         j  == NextPresent(i.tys, i.idx)
+         id == <<i.tys[j], 0>>
+     IN /\ call' = C("miter_next", 0, <<0, 0>>, 0, <<it>> \o gs, <<>>)
+        /\ IF j = 0
+           THEN /\ outcome' = None /\ iters' = [iters EXCEPT ![it].idx = Len(i.tys)]
+                /\ UNCHANGED <<borrow, guards>>
+           ELSE /\ iters' = [iters EXCEPT ![it].idx = j]
+                /\ IF Compat(borrow[id], i.mode)
+                   THEN /\ outcome' = Out("guard", "", <<store[id]>>)
+                        /\ borrow' = [borrow EXCEPT ![id] = Acq(@, i.mode)]
+                        /\ guards' = Put(guards, Gid(gs, 1), G(id, i.mode, FALSE))
+                   ELSE outcome' = Panic("borrow") /\ UNCHANGED <<borrow, guards>>
+  /\ IterKeep
+
+MIterDrop(it) ==
+  /\ it \in DOMAIN iters
+  /\ call' = C("miter_drop", 0, <<0, 0>>, 0, <<it>>, <<>>)
+  /\ outcome' = Unit
+  /\ iters' = Del(iters, {it})
+  /\ IterKeep /\ UNCHANGED <<borrow, guards>>
 
 \* ===========================================================================
 \* Property predicates
